@@ -417,7 +417,7 @@ func extra() map[string]interface{} {
 		}
 	}
 	m := map[string]interface{}{"max_round_reached": maxRnd, "power_sets_dropped_path_dependent": dropped, "generator_events": genStats, "node_panics_by_class": panicStats, "goroutines_at_end": runtime.NumGoroutine(), "leftover_temp_dirs": leftoverDirs()}
-	for _, c := range []string{"sched", "happy", "lock-partition", "unsafe", "late-polka", "locked-pol", "forged-slots", "claim-replay", "corpus"} {
+	for _, c := range []string{"sched", "happy", "lock-partition", "unsafe", "late-polka", "locked-pol", "forged-slots", "claim-replay", "own-delay", "corpus"} {
 		m["decisions."+c] = stats["decisions."+c]
 		m["lock_events."+c] = stats["lock_events."+c]
 	}
